@@ -1,5 +1,4 @@
 import Verif.Lemmas.Session
-import Verif.Lemmas.SessionId
 
 /-! # C19 — server session bookkeeping behaves like a map from unique ids to records
 
@@ -271,47 +270,5 @@ is about a non-empty store -/
 example : (5 : Nat) ∉ keys (run cfgEx (histEx.take 3)).1
     ∧ keys (step cfgEx (run cfgEx (histEx.take 3)).1 3 (.init (some 7) 5 none (some "2024-11-05"))).1
         = [7, 9, 5] := by decide
-
-/-! ## The text of a session id (`generate_session_id`, regenerated from `server/session/base.py`) -/
-section
-open Verif.Gen.SessionId Verif.Model.SessionId
-
-/-- The translator covered `generate_session_id`. -/
-theorem c19_session_id_translated : translatable = true := by decide
-
-/-- For every canonical uuid text (8-4-4-4-12 lower-case hex digits joined by `-`) the session id
-is the 32 hex digits without the dashes: 32 characters, all hexadecimal, no `-`. -/
-theorem c19_session_id_format (p : Parts) (h : p.Canonical) :
-    sessionIdOfUuid p.text = p.hex
-    ∧ (sessionIdOfUuid p.text).length = 32
-    ∧ (∀ x ∈ sessionIdOfUuid p.text, isHex x = true)
-    ∧ '-' ∉ sessionIdOfUuid p.text := by
-  have ht := sessionId_text rfl p h
-  obtain ⟨pa, pb, pc, pd, pe, hx⟩ := h
-  refine ⟨ht, ?_, ?_, ?_⟩
-  · rw [ht]; simp [Parts.hex, pa, pb, pc, pd, pe]
-  · rw [ht]; exact hx
-  · rw [ht]
-    intro hm
-    have := hx _ hm
-    revert this; decide
-
-/-- Ids are as unique as the uuids: two canonical uuid texts with the same session id are the
-same text.  (The freshness of `uuid4` itself is the trusted hypothesis of `c19_ids_unique`.) -/
-theorem c19_session_id_injective (p q : Parts) (hp : p.Canonical) (hq : q.Canonical)
-    (h : sessionIdOfUuid p.text = sessionIdOfUuid q.text) : p.text = q.text := by
-  rw [sessionId_text rfl p hp, sessionId_text rfl q hq] at h
-  exact text_injective p q hp hq h
-
-def uuidEx : Parts :=
-  { a := "123e4567".toList, b := "e89b".toList, c := "42d3".toList, d := "a456".toList, e := "426614174000".toList }
-
-example : uuidEx.Canonical := by
-  refine ⟨rfl, rfl, rfl, rfl, rfl, ?_⟩
-  decide
-
-example : sessionIdOfUuid "123e4567-e89b-42d3-a456-426614174000".toList
-    = "123e4567e89b42d3a456426614174000".toList := by decide
-end
 
 end Verif.Props.C19
